@@ -856,6 +856,55 @@ M2('c02-405-error-local-wrong-list', 'C02', 'R4', [
 # negative controls (exit 0): raise HTTPMethodNotAllowed(allowed_methods=allowed_methods); `error = HTTPMethodNotAllowed(allowed_methods); raise error`
 # in the closure; `create = responders.create_method_not_allowed; create(allowed_methods, asgi=asgi)`
 
+# ----------------------------------------------------------------------
+# wave k4 (k4-c02-3): the tail of add_sink / add_static_route moved into a same-class helper that is HANDED the registration
+# list (`self._push_fallback_entry(self._sinks, entry)` -> `registry.insert(0, entry); self._update_sink_and_static_routes()`);
+# R2 / R3 / R12 read the helper in place, its parameter being the list (_registry_view).  Refactoring + break:
+def _k4_push_helper(helper_body, sink_call='self._push_fallback_entry(self._sinks, (prefix, sink, True))',
+                    static_call='self._push_fallback_entry(self._static_routes, (sr, sr, False))'):
+    return [
+        {'file': APP,
+         'old': "        self._static_routes.insert(0, (sr, sr, False))\n        self._update_sink_and_static_routes()\n",
+         'new': "        %s\n" % static_call},
+        {'file': APP,
+         'old': "        self._sinks.insert(0, (prefix, sink, True))\n        self._update_sink_and_static_routes()\n",
+         'new': "        %s\n" % sink_call},
+        {'file': APP,
+         'old': "    def _update_sink_and_static_routes(self) -> None:\n",
+         'new': "    def _push_fallback_entry(self, registry: List[Any], entry: Tuple[Any, ...]) -> None:\n"
+                "        \"\"\"Register a sink or static route entry and refresh the dispatch order.\"\"\"\n"
+                + helper_body +
+                "\n    def _update_sink_and_static_routes(self) -> None:\n"},
+    ]
+
+
+_K4_REFRESH = "        self._update_sink_and_static_routes()\n"
+M2('c02-k4-push-helper-appends', 'C02', 'R2', _k4_push_helper("        registry.append(entry)\n" + _K4_REFRESH))
+M2('c02-k4-push-helper-inserts-second', 'C02', 'R2', _k4_push_helper("        registry.insert(1, entry)\n" + _K4_REFRESH))
+M2('c02-k4-push-helper-stores-at-old-position', 'C02', 'R2', _k4_push_helper(
+    "        for i, old in enumerate(registry):\n            if old[1] is entry[1]:\n                registry[i] = entry\n                break\n"
+    "        else:\n            registry.insert(0, entry)\n" + _K4_REFRESH))
+M2('c02-k4-push-helper-removes-equal-matchers', 'C02', 'R2', _k4_push_helper(
+    "        for old in list(registry):\n            if old[0] == entry[0]:\n                registry.remove(old)\n"
+    "        registry.insert(0, entry)\n" + _K4_REFRESH))
+M2('c02-k4-push-helper-purges-in-place', 'C02', 'R2', _k4_push_helper(
+    "        registry[:] = [old for old in registry if old[0] != entry[0]]\n        registry.insert(0, entry)\n" + _K4_REFRESH))
+M2('c02-k4-push-helper-caps-history', 'C02', 'R2', _k4_push_helper(
+    "        registry.insert(0, entry)\n        del registry[16:]\n" + _K4_REFRESH))
+M2('c02-k4-push-helper-skips-registered', 'C02', 'R2', _k4_push_helper(
+    "        if entry not in registry:\n            registry.insert(0, entry)\n" + _K4_REFRESH))
+M2('c02-k4-push-helper-static-flagged-as-sink', 'C02', 'R2', _k4_push_helper(
+    "        registry.insert(0, entry)\n" + _K4_REFRESH, static_call='self._push_fallback_entry(self._static_routes, (sr, sr, True))'))
+M2('c02-k4-push-helper-no-refresh', 'C02', 'R3', _k4_push_helper("        registry.insert(0, entry)\n"))
+M2('c02-k4-push-helper-refresh-before-insert', 'C02', 'R3', _k4_push_helper(_K4_REFRESH + "        registry.insert(0, entry)\n"))
+M2('c02-k4-push-helper-sink-recompiled', 'C02', 'R12', _k4_push_helper(
+    "        registry.insert(0, entry)\n" + _K4_REFRESH,
+    sink_call='self._push_fallback_entry(self._sinks, (re.compile(prefix.pattern), sink, True))'))
+# negative controls (exit 0): k4-c02-3 itself (_k4_push_helper("        registry.insert(0, entry)\n" + _K4_REFRESH)); the list handed by
+# keyword (registry=self._sinks); `sinks = self._sinks; self._push_fallback_entry(sinks, entry)`; `return self._push_fallback_entry(...)`;
+# a module-level `_push_fallback_entry(registry, entry)` that only inserts, the refresh left in the callers.
+# exit 2 (not read, never silent): the helper re-binds `registry`, calls a method of self before it inserts, or lives in another class.
+
 # C02 R4 (r4_allow) is also registered as C20 R6 (the preflight copies the same Allow value into
 # Access-Control-Allow-Methods): every R4 operator legitimately fires there too.
 from .mutants import MUTANTS as _ALL   # noqa: E402
